@@ -146,6 +146,13 @@ Proof.
   apply allcalls_bind; [apply IH; intros y Hy; apply H; right; exact Hy|]. intros bs. exact I.
 Qed.
 
+Lemma nopanic_forM {A B} (l : list A) (f : A -> prog B) :
+  (forall x, In x l -> nopanic (f x)) -> nopanic (forM l f).
+Proof.
+  induction l as [|x r IH]; intros H; cbn [forM]; [exact I|].
+  apply nopanic_bind; [apply H; left; reflexivity|]. intros b.
+  apply nopanic_bind; [apply IH; intros y Hy; apply H; right; exact Hy|]. intros bs. exact I.
+Qed.
 Lemma nopanic_forM_ {A} (l : list A) (f : A -> prog unit) :
   (forall x, In x l -> nopanic (f x)) -> nopanic (forM_ l f).
 Proof.
@@ -372,4 +379,64 @@ Proof.
     destruct (G bs [] [] H) as [(t1 & t2 & a & K1 & K2 & K3)|(s' & K1 & K2)].
     + left. exists t1, t2, a. auto.
     + right. exists s'. auto.
+Qed.
+
+(* ---- panics_in: every crash leaf of the program lies at a site satisfying Q ------------------ *)
+Fixpoint panics_in {A} (Q : site -> Prop) (p : prog A) : Prop :=
+  match p with
+  | Ret _ => True
+  | Panic s => Q s
+  | Do s c k => forall r, panics_in Q (k r)
+  | Par s bs k =>
+      (fix go (bs : list (host * prog resp)) : Prop :=
+         match bs with [] => True | (_, b) :: r => panics_in Q b /\ go r end) bs
+      /\ forall rs, panics_in Q (k rs)
+  end.
+
+Fixpoint panics_in_sound {A} (Q : site -> Prop) (p : prog A) {struct p} :
+  panics_in Q p -> forall tr s, runs p tr (Panicked s) -> Q s.
+Proof.
+  destruct p as [a|s0|s0 c k|s0 bs k]; cbn [panics_in runs]; intros Hnp tr s Hr.
+  - destruct Hr as [_ Hr]. discriminate Hr.
+  - destruct Hr as [_ Hr]. inversion Hr; subst. exact Hnp.
+  - destruct tr as [|e tr']; [destruct Hr|]. destruct Hr as (_ & _ & Hrest).
+    eapply (panics_in_sound _ Q (k (ev_resp e))); eauto.
+  - destruct Hnp as [Hbs Hk].
+    assert (G : forall (bs0 : list (host * prog resp)) acc_tr acc_rs,
+      (fix go (bs : list (host * prog resp)) : Prop :=
+         match bs with [] => True | (_, b) :: r => panics_in Q b /\ go r end) bs0 ->
+      (fix branches (bs : list (host * prog resp)) (acc_tr : list trace) (acc_rs : list (host * resp)) : Prop :=
+         match bs with
+         | [] => exists tpar tk rs, interleave (rev acc_tr) tpar /\ tr = tpar ++ tk /\ Permutation (rev acc_rs) rs /\ runs (k rs) tk (Panicked s)
+         | (h, b) :: bs' =>
+             exists tb ob, runs b tb ob /\
+               match ob with
+               | Done r => branches bs' (tb :: acc_tr) ((h, r) :: acc_rs)
+               | Panicked s' => Panicked (A:=A) s = Panicked s' /\ exists tpar, interleave (rev (tb :: acc_tr)) tpar /\ tr = tpar
+               end
+         end) bs0 acc_tr acc_rs ->
+      Q s).
+    { induction bs0 as [|[h b] bs' IHb]; intros acc_tr acc_rs Hgo Hrun.
+      - destruct Hrun as (tpar & tk & rs & _ & _ & _ & Hrk). eapply (panics_in_sound _ Q (k rs)); eauto.
+      - destruct Hgo as [Hb Hgo]. destruct Hrun as (tb & ob & Hrb & Hrest).
+        destruct ob as [r|s'].
+        + apply (IHb (tb :: acc_tr) ((h, r) :: acc_rs)); [exact Hgo|exact Hrest].
+        + destruct Hrest as [E _]. inversion E; subst. eapply (panics_in_sound _ Q b); eauto. }
+    eapply G; eauto.
+Qed.
+
+Lemma panics_in_bind {A B} Q (p : prog A) (f : A -> prog B) :
+  panics_in Q p -> (forall a, panics_in Q (f a)) -> panics_in Q (bind p f).
+Proof.
+  induction p as [a|s|s c k IH|s bs k IH] using prog_ind_k; intros Hp Hf; cbn in *; auto.
+  destruct Hp as [Hb Hk]. split; auto.
+Qed.
+Fixpoint nopanic_panics_in {A} (Q : site -> Prop) (p : prog A) {struct p} : nopanic p -> panics_in Q p.
+Proof.
+  destruct p as [a|s|s c k|s bs k]; cbn [nopanic panics_in]; intros H.
+  - exact I.
+  - destruct H.
+  - intros r. apply nopanic_panics_in. apply H.
+  - destruct H as [Hb Hk]. split; [|intros rs; apply nopanic_panics_in; apply Hk].
+    revert Hb. induction bs as [|[h b] r IH]; [intros; exact I|]. intros [H1 H2]. split; [apply nopanic_panics_in; exact H1|apply IH; exact H2].
 Qed.
